@@ -205,7 +205,83 @@ def replay_heur(r):
     return kind in fails, f"failures={sorted(fails)} {info}"
 
 
-HANDLERS = {"prop": replay_prop, "heur": replay_heur}
+SPLIT_SHAPES = {
+    "own1": (lambda a, b, c, d, o: ([(a, b)], None, None), 0, 0),
+    "own2_v0": (lambda a, b, c, d, o: ([(a, b), (c, d)], None, None), 0, 0),
+    "own2_v1": (lambda a, b, c, d, o: ([(c, d), (a, b)], None, None), 1, 1),
+    "shared_v1": (lambda a, b, c, d, o: ([(a, b)], [0, 0], [0, o]), 1, 0),
+    "shared3_v2": (lambda a, b, c, d, o: ([(c, d), (a, b)], [0, 1, 1], [0, 0, o]), 2, 1),
+    "crossed_v0": (lambda a, b, c, d, o: ([(c, d), (a, b)], [1, 0], [o, 0]), 0, 1),
+}
+
+
+def split_real(r):
+    from nucs.problems.problem import Problem
+
+    build, var, dom = SPLIT_SHAPES[r["shape"]]
+    doms, idx, offs = build(r["a"], r["b"], r["c"], r["d"], r["o"])
+    pb = Problem(doms, idx, offs)
+    return pb, pb.split(r["k"], var), dom
+
+
+def solve_with_watchdog(doms, idx, offs, seconds=20):
+    import subprocess
+
+    code = (
+        "import sys\nsys.path.insert(0,%r)\nfrom nucs.problems.problem import Problem\nfrom nucs.solvers.backtrack_solver import BacktrackSolver\n"
+        "s=BacktrackSolver(Problem(%r,%r,%r),log_level='CRITICAL')\nprint('SOLUTIONS',[x.tolist() for x in s.find_all()])\n"
+        % (os.environ.get("NUSYM_REPO", "/repo"), doms, idx, offs)
+    )
+    try:
+        p = subprocess.run([sys.executable, "-c", code], timeout=seconds, capture_output=True, text=True)
+    except subprocess.TimeoutExpired:
+        return "timeout"
+    return p.stdout.strip().splitlines()[-1] if p.stdout.strip() else "error: " + p.stderr[-300:]
+
+
+def replay_split(r):
+    kind = r["kind"]
+    a, b = r["a"], r["b"]
+    try:
+        pb, subs, dom = split_real(r)
+    except Exception as e:  # noqa
+        return kind == "raises", f"split raised {type(e).__name__}: {e}"
+    parts = [list(s.shr_domains_lst[dom]) for s in subs]
+    vals = [v for lo, hi in parts for v in range(lo, hi + 1)]
+    fails = set()
+    if not subs:
+        fails.add("no-sub-problem")
+    if set(range(a, b + 1)) - set(vals):
+        fails.add("value-lost")
+    if set(vals) - set(range(a, b + 1)):
+        fails.add("value-invented")
+    if len(vals) != len(set(vals)):
+        fails.add("overlap")
+    info = f"parts={parts}"
+    if any(lo > hi for lo, hi in parts):
+        # an empty part is a failure only if the solver cannot digest it ("every sub-problem can be solved in finite time")
+        for s in subs:
+            lo, hi = s.shr_domains_lst[dom]
+            if lo > hi:
+                out = solve_with_watchdog([tuple(x) for x in s.shr_domains_lst], s.dom_indices_lst, s.dom_offsets_lst)
+                info += f" solving the empty part: {out}"
+                if out != "SOLUTIONS []":
+                    fails.add("empty-part")
+                break
+    for s in subs:
+        for i, x in enumerate(s.shr_domains_lst):
+            if i != dom and list(x) != list(pb.shr_domains_lst[i]):
+                fails.add("differs-elsewhere")
+    return kind in fails, f"failures={sorted(fails)} {info}"
+
+
+def validate_split(w):
+    pb, subs, dom = split_real(w)
+    parts = [list(s.shr_domains_lst[dom]) for s in subs]
+    return parts == w["parts"], f"real parts={parts}"
+
+
+HANDLERS = {"prop": replay_prop, "heur": replay_heur, "split": replay_split}
 
 
 def validate_prop(w):
@@ -214,7 +290,7 @@ def validate_prop(w):
     return ok, f"real: status={st} out={out}"
 
 
-VALIDATORS = {"prop": validate_prop}
+VALIDATORS = {"prop": validate_prop, "split": validate_split}
 
 
 def _load_ext():
